@@ -23,7 +23,7 @@ GNext == \/ InitOp /\ H("init", 0)
          \/ StartOp /\ H("start", 0)
          \/ StopOp /\ H("stop", 0)
          \/ CleanupOp /\ H("cleanup", 0)
-         \/ \E ms \in {1000} : S.tmr # -1 /\ S.now < S.tmr + 1000 /\ AdvOp(ms) /\ H("adv", ms)
+         \/ \E ms \in {500, 1000} : S.tmr # -1 /\ S.now < S.tmr + 1000 /\ AdvOp(ms) /\ H("adv", ms)
          \/ PassOp /\ H("pass", 0)
          \/ \E n \in 1..MaxData : S.tx + n <= MaxData /\ SendOp(n) /\ H("send", n)
          \/ ShutdownOp /\ H("shutdown", 0)
